@@ -79,6 +79,12 @@ class RotationInstruction(base.RegImmImmInstruction):
     def angle_denom(self, new_val: Immediate):
         self.imm1 = new_val
 
+    @property
+    def angle(self) -> float:
+        """The rotation angle `angle_num * pi / 2 ^ angle_denom`, from the integer values of the
+        operands (an int subclass, such as a Future of the SDK, carries its value in `__int__`)."""
+        return int(self.angle_num.value) * np.pi / 2 ** int(self.angle_denom.value)
+
     @abstractmethod
     def to_matrix(self):
         pass
@@ -138,6 +144,12 @@ class ControlledRotationInstruction(base.RegRegImmImmInstruction):
     @angle_denom.setter
     def angle_denom(self, new_val: Immediate):
         self.imm1 = new_val
+
+    @property
+    def angle(self) -> float:
+        """The rotation angle `angle_num * pi / 2 ^ angle_denom`, from the integer values of the
+        operands (an int subclass, such as a Future of the SDK, carries its value in `__int__`)."""
+        return int(self.angle_num.value) * np.pi / 2 ** int(self.angle_denom.value)
 
     @abstractmethod
     def to_matrix(self):
